@@ -11,6 +11,8 @@ import Rare.Proofs.C05Signal
 import Rare.Proofs.C05Logger
 import Rare.Proofs.C05Close
 import Rare.Proofs.C05CloseProg
+import Rare.Proofs.C05SignalTrace
+import Rare.Proofs.C05HB
 /-!
 # C05 — race-free, atomic renders, complete final render
 
@@ -23,8 +25,11 @@ import Rare.Proofs.C05CloseProg
 * Data races: lockset discipline over the access tables regenerated from /repo – all fields of every
   shared object, referents of reference-typed fields included (aliases, escapes), the variables
   `RunAggregationLoop` shares with its ticker, the monitor behind `outputMutex` (partial: the tables are
-  syntactic; the Go memory model is used in the form written down in Model/Lockset.lean, its mutex rule
-  proved over an abstract trace model in Proofs/LocksetHB.lean).
+  syntactic; the Go memory model is used in the form written down in Model/Lockset.lean; that the three
+  disciplines of the check – common mutex with one side exclusive, both atomic, `go` edge – exclude data races is
+  proved over abstract trace models in Proofs/LocksetHB.lean and Proofs/C05HB.lean).
+* Close-after-WaitGroup: a closed batch channel implies a complete status (readers as programs whose exit block is
+  read off the regenerated skeleton); signal path incl. trace inclusion of real SIGINT runs; pkg/logger.
 -/
 namespace Rare.C05
 open Rare.AggLoop
@@ -626,8 +631,8 @@ example : C05Status.FreshStarts {} [.start "a", .start "b", .start "c", .stop "a
     events of a sequentially consistent interleaving, `Exec` = sync.Mutex semantics, `HB` = transitive
     closure of program order and Unlock→later Lock): if every access to a location is made while the
     accessing thread holds the location's guard, no two conflicting accesses of different threads are
-    unordered – the execution has no data race.  (Not covered by this model: RWMutex, atomics, `go` and
-    channel edges; the link from "lock held at the site" in the table to `hs k (guard x) = some tid` is the
+    unordered – the execution has no data race.  (RWMutex, atomics and `go` edges: `lockset_disciplines_sound`
+    below; the link from "lock held at the site" in the table to `hs k (guard x) = some tid` is the
     syntactic must-hold analysis.) -/
 theorem lockset_mutex_rule_sound {tr : List Lockset.HB.Ev} {hs : Nat → Lockset.HB.Holders}
     (hex : Lockset.HB.Exec tr hs) (guard : Nat → Nat)
@@ -641,6 +646,51 @@ theorem lockset_mutex_orders {tr : List Lockset.HB.Ev} {hs : Nat → Lockset.HB.
     (ha : tr[i]? = some a) (hb : tr[j]? = some b) {m : Nat}
     (h1 : hs i m = some a.tid) (h2 : hs j m = some b.tid) : Lockset.HB.HB tr i j :=
   Lockset.HB.mutex_orders hex hij ha hb h1 h2
+
+/-- **All three disciplines of the race check, over a trace semantics that has them** (Proofs/C05HB.lean: `sync.RWMutex`
+    with `Lock`/`Unlock`/`RLock`/`RUnlock`, atomic and plain accesses, `go` statements; happens-before = program
+    order, `Unlock` → later `Lock`/`RLock`, `RUnlock` → later `Lock`, `go` → the started goroutine; a data race = two
+    conflicting accesses, not both atomic, of different threads, unordered).  If every conflicting pair either
+    holds a common mutex – at least one side exclusively, exactly the `a.lock = "W" ∨ b.lock = "W"` of
+    `lockset_batcher_pairs` – or is separated by the `go` statement that started the later access's goroutine, the
+    execution has no data race; pairs of atomic accesses are no race by definition.  (Not in this model: channel
+    edges, i.e. the `outputDone` hand-shake `raceFreeRoles` uses for `aggLoop`; the link from "lock held at the site"
+    in the tables to `Holds` is the syntactic must-hold analysis.) -/
+theorem lockset_disciplines_sound {tr : List Lockset.HB2.Ev} {hs : Nat → Lockset.HB2.Locks}
+    (hex : Lockset.HB2.Exec tr hs)
+    (hdisc : ∀ i j a b, i < j → tr[i]? = some a → tr[j]? = some b → Lockset.HB2.Conflict a b → a.tid ≠ b.tid →
+      (∃ m la lb, Lockset.HB2.Holds (hs i) m a.tid la ∧ Lockset.HB2.Holds (hs j) m b.tid lb ∧ (la = true ∨ lb = true)) ∨
+      (∃ k c, i ≤ k ∧ k < j ∧ tr[k]? = some c ∧ c.tid = a.tid ∧ c.op = .spawn b.tid)) :
+    ¬ Lockset.HB2.Race tr :=
+  Lockset.HB2.discipline_no_race hex hdisc
+
+/-- The RWMutex rule by itself: two events whose threads hold the same mutex, at least one of them exclusively
+    (the logger: printers under `RLock`, `DeferLogs`/`ImmediateLogs` under `Lock`), are ordered by happens-before. -/
+theorem lockset_rw_mutex_orders {tr : List Lockset.HB2.Ev} {hs : Nat → Lockset.HB2.Locks}
+    (hex : Lockset.HB2.Exec tr hs) {i j : Nat} {a b : Lockset.HB2.Ev} (hij : i < j)
+    (ha : tr[i]? = some a) (hb : tr[j]? = some b) {m : Nat} {la lb : Bool}
+    (h1 : Lockset.HB2.Holds (hs i) m a.tid la) (h2 : Lockset.HB2.Holds (hs j) m b.tid lb)
+    (hx : la = true ∨ lb = true) : Lockset.HB2.HB tr i j :=
+  Lockset.HB2.rw_mutex_orders hex hij ha hb h1 h2 hx
+
+/-- Boundary: "at least one side exclusively" cannot be dropped – two goroutines that both hold `RLock` of the same
+    mutex, one writing and one reading the same location, form an execution WITH a data race. -/
+theorem lockset_two_readers_race_counterexample :
+    Lockset.HB2.Exec Lockset.HB2.rrDemo (Lockset.HB2.statesOf Lockset.HB2.rrDemo) ∧
+    Lockset.HB2.Holds (Lockset.HB2.statesOf Lockset.HB2.rrDemo 2) 0 1 false ∧
+    Lockset.HB2.Holds (Lockset.HB2.statesOf Lockset.HB2.rrDemo 3) 0 2 false ∧
+    Lockset.HB2.Race Lockset.HB2.rrDemo :=
+  Lockset.HB2.rr_race
+
+/-- Non-vacuity of `lockset_disciplines_sound`: a logger-shaped execution (write under `Lock`, reads under `RLock`
+    by two goroutines, a location written before the `go` and read by the started goroutine without a lock, an
+    atomic counter) satisfies the hypotheses – and does contain conflicting pairs of each kind. -/
+example : Lockset.HB2.Exec Lockset.HB2.logDemo (Lockset.HB2.statesOf Lockset.HB2.logDemo) ∧
+    ¬ Lockset.HB2.Race Lockset.HB2.logDemo ∧
+    Lockset.HB2.conflictB ⟨1, .acc 7 true false⟩ ⟨2, .acc 7 false false⟩ = true ∧
+    Lockset.HB2.conflictB ⟨1, .acc 8 true false⟩ ⟨2, .acc 8 false false⟩ = true ∧
+    Lockset.HB2.conflictB ⟨2, .acc 9 true true⟩ ⟨1, .acc 9 false true⟩ = false :=
+  ⟨Lockset.HB2.logDemo_exec, Lockset.HB2.logDemo_no_race, by decide, by decide, by decide⟩
 
 /-- Non-vacuity: two threads that each lock, write the same location and unlock form an execution that
     satisfies the hypotheses. -/
@@ -747,6 +797,62 @@ example : TraceOrder.accepts machine lin (initSt (streamOf exampleLog)) exampleL
 example : TraceOrder.accepts machine lin (initSt (streamOf exampleLog))
     (exampleLog.filter fun e => !(e.g == 0 && (e.kind == "rb" || e.kind == "rn"))).toArray = false := by
   decide
+
+/-! ### … and on the signal path (`Model/C05SignalTrace.lean`): the event `ms` (hook `m.signal`) is the step `SStep.signal` -/
+
+/-- An accepted log of a real run – ended by SIGINT or by the end of the input – has an admissible reordering that
+    replays through the signal machine to a state that is REACHABLE in the signal transition system from
+    `sinit stream`, with main finished; the machine's flag says whether the log contains a signal; and so
+    (`signal_final_render`) the run ended with the ticker stopped, the mutex free, and a last render that shows
+    exactly what was sampled = everything main received, a prefix of the stream – all of it without a signal.
+    Correspondence: op `strace` (real `RunAggregationLoop`, SIGINT raised inside a Sample or inside a render). -/
+theorem signal_trace_accepts_sound (stream : List (List Bytes)) (L : Lin SASt) (tr : Array Ev)
+    (h : TraceOrder.accepts smachine L (sinitSt stream) tr = true) :
+    ∃ sched s, Admissible tr sched ∧ replay smachine (sinitSt stream) (sched.map (evAt tr)) = some s ∧
+      SReach (sinit stream) s.sst ∧ s.a.lts.main = .finished ∧
+      s.signalled = (sched.map (evAt tr)).any (fun e => e.kind = "ms") ∧
+      s.a.lts.ticker = .stopped ∧ s.a.lts.mutex = .none ∧ s.a.lts.renders.getLast? = some s.a.lts.sampled ∧
+      s.a.lts.sampled = s.a.lts.received ∧ s.a.lts.sampled <+: stream.flatten ∧
+      (s.signalled = false → s.a.lts.sampled = stream.flatten) := by
+  obtain ⟨sched, s, hadm, hrep, hfin⟩ := TraceOrder.accepts_sound h
+  have hr : SReach (sinit stream) s.sst := sreplay_reach _ _ _ hrep .refl
+  have hm : s.a.lts.main = .finished := by
+    simp only [smachine] at hfin
+    cases hm : s.a.lts.main <;> simp [hm, isFinished] at hfin ⊢
+  have hsig := sreplay_signalled _ _ _ hrep
+  have hf := signal_final_render stream hr hm
+  refine ⟨sched, s, hadm, hrep, hr, hm, ?_, hf.1, hf.2.1, hf.2.2.1, hf.2.2.2.1, hf.2.2.2.2.1, hf.2.2.2.2.2⟩
+  simpa [sinitSt] using hsig
+
+/-- Non-vacuity: a real-shaped log with a signal is accepted by the signal machine (and says so); the machine
+    without the signal step rejects it (main cannot reach the hand-shake without having seen the channel closed);
+    and the same log without its `ms` event, or without the final render's callback, is rejected. -/
+example : TraceOrder.accepts smachine slin (sinitSt (streamOf exampleSignalLog)) exampleSignalLog.toArray = true ∧
+    (match TraceOrder.verdict smachine slin (sinitSt (streamOf exampleSignalLog)) exampleSignalLog.toArray with
+      | .accepted s _ => s.signalled && s.a.lts.sampled == [[97], [98]] | .rejected .. => false) = true ∧
+    TraceOrder.accepts machine lin (initSt (streamOf exampleSignalLog)) exampleSignalLog.toArray = false ∧
+    TraceOrder.accepts smachine slin (sinitSt (streamOf exampleSignalLog))
+      (exampleSignalLog.filter fun e => e.kind != "ms").toArray = false ∧
+    TraceOrder.accepts smachine slin (sinitSt (streamOf exampleSignalLog))
+      (exampleSignalLog.filter fun e => !(e.kind == "rb" || e.kind == "rn")).toArray = false := by
+  refine ⟨by decide, by decide, by decide, by decide, by decide⟩
+
+/-- … and the logs without a signal are judged exactly as before: on a log with no `ms` event the signal machine
+    replays like the machine of the first part. -/
+theorem signal_trace_conservative (evs : List Ev) (hno : ∀ e ∈ evs, e.kind ≠ "ms") (s : SASt) :
+    replay smachine s evs = (replay machine s.a evs).map fun a => ⟨a, s.signalled⟩ := by
+  induction evs generalizing s with
+  | nil => simp [replay]
+  | cons e es ih =>
+    have hk : e.kind ≠ "ms" := hno e (by simp)
+    have hs : smachine.step s e = (machine.step s.a e).map fun a => ⟨a, s.signalled⟩ := by
+      simp [smachine, machine, sastep, hk]
+    simp only [replay, hs]
+    cases hm : machine.step s.a e with
+    | none => simp
+    | some a' =>
+      simp only [Option.map_some, Option.bind_some]
+      exact ih (fun e he => hno e (by simp [he])) ⟨a', s.signalled⟩
 
 end Trace
 
